@@ -362,6 +362,11 @@ def run(ck, tier):
     _mp.run(ck, F, 'C08')
     from . import c08x
     c08x.run(ck, F)
+    from . import c08y
+    c08y.run(ck, F)
+    c08y.run_block_fields(ck, F)
+    c08y.run_len_minus(ck, F)
+    c08y.run_variant_boundaries(ck, F)
     from . import accum as _acc
     _acc.run(ck, F, 'C08')
     run_census(ck, F)
